@@ -166,20 +166,104 @@ def union_members(s: dict) -> list[dict]:
     return ms
 
 
-def loosely_accepts(member: dict, J: Any, doc: dict) -> bool:
-    """Would the generated decoder's attempt at this union member succeed on J?  (type check +
-    required keys present: what from_dict needs in order not to raise.)"""
+def _constructs(schema: dict, doc: dict, depth: int = 0) -> bool:
+    """Does the generated decoder CONSTRUCT values of this kind (and may therefore raise), as opposed to casting?"""
+    k = classify(schema, doc)
+    if k in ("model", "date", "date-time", "uuid", "enum", "const", "binary", "union"):
+        return True
+    if k == "array" and depth < 6:
+        s = resolve(schema, doc)
+        ch = list(s.get("prefixItems") or []) + ([s["items"]] if s.get("items") else [])
+        return len(ch) > 1 or any(_constructs(x, doc, depth + 1) for x in ch)
+    return False
+
+
+def attempt_succeeds(member: dict, J: Any, doc: dict, depth: int = 0) -> bool:
+    """Would the generated decoder's ATTEMPT at this schema succeed on J (i.e. not raise)?  A model of what the
+    generated from_dict / _parse_* code does: plain kinds are cast (never raise), constructed kinds raise on
+    incompatible values, required keys must be present, closed models silently drop unknown keys."""
+    if depth > 8:
+        return True
+    s = resolve(member, doc)
     k = classify(member, doc)
+    if J is None:
+        if k == "union":
+            return is_nullable(s) or any(attempt_succeeds(m, None, doc, depth + 1) for m in union_members(s))
+        return is_nullable(s) or k in ("null", "any", "string", "integer", "number", "boolean")
     if k == "model":
         if not isinstance(J, dict):
             return False
-        _p, req, _a = model_properties(member, doc)
-        return req <= set(J)
+        props, req, addl = model_properties(member, doc)
+        if not req <= set(J):
+            return False
+        for name, ps in props.items():
+            if name in J and not attempt_succeeds(ps, J[name], doc, depth + 1):
+                return False
+        if isinstance(addl, dict) and addl and _constructs(addl, doc):
+            for name, v in J.items():
+                if name not in props and not attempt_succeeds(addl, v, doc, depth + 1):
+                    return False
+        return True
     if k == "null":
         return J is None
     if k == "array":
-        return isinstance(J, list)
-    if k in ("string", "date", "date-time", "uuid", "binary"):
+        ch = list(s.get("prefixItems") or []) + ([s["items"]] if s.get("items") else [])
+        if not _constructs(member, doc):
+            return True  # cast(list[...], value): anything goes
+        if not isinstance(J, list):
+            return False
+        for x in J:
+            if len(ch) == 1:
+                if not attempt_succeeds(ch[0], x, doc, depth + 1):
+                    return False
+            elif not any(attempt_succeeds(m, x, doc, depth + 1) for m in ch) and all(_constructs(m, doc) for m in ch):
+                return False
+        return True
+    if k in ("date", "date-time"):
+        if not isinstance(J, str):
+            return False
+        try:
+            from dateutil.parser import isoparse
+
+            isoparse(J)
+            return True
+        except Exception:  # noqa: BLE001
+            return False
+    if k == "uuid":
+        if not isinstance(J, str):
+            return False
+        try:
+            uuid.UUID(J)
+            return True
+        except Exception:  # noqa: BLE001
+            return False
+    if k == "binary":
+        return isinstance(J, (bytes, dict))
+    if k == "enum":
+        return J in [v for v in s.get("enum", []) if v is not None]
+    if k == "const":
+        return J == s.get("const")
+    if k == "union":
+        ms = union_members(s)
+        if any(attempt_succeeds(m, J, doc, depth + 1) for m in ms):
+            return True
+        return any(not _constructs(m, doc) for m in ms)  # an unconstructed member is the cast fallback
+    return True  # string / integer / number / boolean / any: cast, never raises
+
+
+def loosely_accepts(member: dict, J: Any, doc: dict) -> bool:
+    """Inside a union the generated decoder tries the members in order; a member 'accepts' J when its type check
+    passes and its attempt would not raise."""
+    k = classify(member, doc)
+    if k == "model":
+        return isinstance(J, dict) and attempt_succeeds(member, J, doc)
+    if k == "null":
+        return J is None
+    if k == "array":
+        return isinstance(J, list) and attempt_succeeds(member, J, doc)
+    if k in ("date", "date-time", "uuid"):
+        return isinstance(J, str) and attempt_succeeds(member, J, doc)
+    if k in ("string", "binary"):
         return isinstance(J, str)
     if k == "integer":
         return isinstance(J, int) and not isinstance(J, bool)
